@@ -95,6 +95,12 @@ def conc(t, val, model):
             if z3.is_true(model.eval(z3.Select(val.dom, k), model_completion=True)):
                 kk = conc(t.k, key_untuple(t.k, k), model)
                 out[kk] = conc(t.v, t.v.unflat([c[k] for c in val.comps]), model)
+        if type(t).__name__ == "TODict":
+            # insertion order as the model has it (the representation invariant makes it a permutation of the keys)
+            n = scalar(model, val.order.n)
+            keys = [conc(t.k, key_untuple(t.k, model.eval(val.order.comps[0][i], model_completion=True)), model) for i in range(min(n, 64))]
+            if sorted(map(repr, keys)) == sorted(map(repr, out)):
+                out = {k: out[k] for k in keys}
         return out
     if isinstance(t, TRec):
         return {f: conc(ft, val.fields[f], model) for f, ft in t.fields.items()}
@@ -128,6 +134,13 @@ def lift(x, t=None):
             kt = key_term(t.k, lift(k))
             dom = z3.Store(dom, kt, True)
             comps = [z3.Store(c, kt, f) for c, f in zip(comps, t.v.flat(lift(v, t.v)))]
+        if type(t).__name__ == "TODict":
+            from .types import SODict, SList
+            arr, pos = z3.K(z3.IntSort(), z3.FreshConst(ks, "ok")), z3.K(ks, z3.IntVal(0))
+            for i, k in enumerate(x):
+                kt = key_term(t.k, lift(k))
+                arr, pos = z3.Store(arr, i, kt), z3.Store(pos, kt, i)
+            return SODict(t.k, t.v, dom, comps, SList(t.k, z3.IntVal(len(x)), [arr]), pos)
         return SDict(t.k, t.v, dom, comps)
     if isinstance(x, dict):
         return {k: lift(v) for k, v in x.items()}
@@ -161,7 +174,12 @@ def flat_py(t, x):
     if isinstance(t, TDict):
         items = {(k if not isinstance(k, list) else tuple(k)): flat_py(t.v, v) for k, v in x.items()}
         ncomp = len(t.v.sorts())
-        return [Arr(lambda k, items=items: k in items)] + [Arr(lambda k, items=items, c=c: items[k][c] if k in items else 0) for c in range(ncomp)]
+        out = [Arr(lambda k, items=items: k in items)] + [Arr(lambda k, items=items, c=c: items[k][c] if k in items else 0) for c in range(ncomp)]
+        if type(t).__name__ == "TODict":
+            keys = list(items)          # python dicts keep insertion order
+            index = {k: i for i, k in enumerate(keys)}
+            out += [len(keys), Arr(lambda i, keys=keys: keys[i] if 0 <= i < len(keys) else 0), Arr(lambda k, index=index: index.get(k, 0))]
+        return out
     if isinstance(t, TRec):
         return [v for f, ft in t.fields.items() for v in flat_py(ft, x[f])]
     if type(t).__name__ == "TSet":
